@@ -216,6 +216,13 @@ static Plan gen_plan(uint64_t seed, int min_clients)
   if (long_run) { n = 150 + r.below(1100); nfocus = 1 + r.below(2); }
   if (very_long) { n = 3000 + r.below(9000); }           // enough distinct arguments to fill and wrap a few-thousand-entry table
   unsigned alias_pct = very_long ? 20 : long_run ? 35 : 60, focus_pct = long_run ? 97 : 85;
+  // hot loop: one entry point asked the same one-to-three questions (and their exact aliases) tens of thousands of times,
+  // usually by a single caller - what a render or control loop does; use counters and ageing policies need this to move
+  bool hot_loop = r.below(10000) < 15;
+  if (hot_loop) { n = 70000 + r.below(70000); nfocus = 1; alias_pct = 100; focus_pct = 100; if (r.chance(70)) p.clients = std::max(1, min_clients); }
+  // crowd: more live callers than any fixed-size per-thread table is likely to have slots for
+  bool crowd = !hot_loop && r.below(1000) < 5;
+  if (crowd) { p.clients = 66 + static_cast<int>(r.below(25)); n = 150 + r.below(250); nfocus = 1 + r.below(2); focus_pct = 97; alias_pct = 35; }
   std::vector<uint16_t> focus;
   for (size_t i = 0; i < nfocus; ++i)
     {
@@ -234,6 +241,7 @@ static Plan gen_plan(uint64_t seed, int min_clients)
     Item it{};
     it.client = static_cast<uint8_t>(r.below(p.clients));
     it.op = r.chance(focus_pct) ? focus[r.below(focus.size())] : static_cast<uint16_t>(r.below(g_ops.size()));
+    if (hot_loop && i >= 1) it.op = p.items[0].op;
     const Op & op = g_ops[it.op];
     it.alias = AL_NONE; it.alias_of = -1;
     for (int attempt = 0; attempt < 20; ++attempt)
@@ -241,7 +249,11 @@ static Plan gen_plan(uint64_t seed, int min_clients)
       it.alias = AL_NONE; it.alias_of = -1;
       // earlier call whose first argument we alias: same op preferred, else any op with the same argument kind
       int src = -1;
-      if (i > 0 && r.chance(alias_pct))
+      if (hot_loop && i >= 3)
+        {
+        src = static_cast<int>(r.below(3));
+        }
+      else if (i > 0 && r.chance(alias_pct))
         {
         std::vector<int> same, kind;
         for (size_t j = (i > 64 && r.chance(50)) ? i - 64 : 0; j < i; ++j)
@@ -255,6 +267,15 @@ static Plan gen_plan(uint64_t seed, int min_clients)
       if (src >= 0)
         {
         AliasKind ak = AL_NONE;
+        if (hot_loop)
+          {   // the same question, or one of its exact equivalents
+          static const AliasKind eq[] = {AL_SAME, AL_SAME, AL_SAME, AL_SAME, AL_NEG, AL_PI, AL_2PI, AL_LOW32};
+          uint64_t v = p.items[src].a; ak = eq[r.below(8)];
+          uint64_t k2 = 1 + r.below(3);
+          it.a = g_ops[it.op].ka != K_FX ? v : ak == AL_NEG ? 0 - v : ak == AL_PI ? v + k2 * PHI_RAW : ak == AL_2PI ? v + k2 * 2 * PHI_RAW : ak == AL_LOW32 ? v + (k2 << 32) : v;
+          if (g_ops[it.op].ka != K_FX) ak = AL_SAME;
+          }
+        else
         it.a = alias_arg(r, op.ka, p.items[src].a, ak);
         it.alias = static_cast<uint8_t>(ak); it.alias_of = static_cast<int16_t>(src);
         it.b = (op.kb == g_ops[p.items[src].op].kb && r.chance(70)) ? p.items[src].b : fresh_arg(r, op.kb);
@@ -272,7 +293,7 @@ static Plan gen_plan(uint64_t seed, int min_clients)
     }
   // thread churn: some runs retire caller threads and start new ones in their place (fresh thread-local state,
   // a growing count of threads the library has ever seen)
-  if (r.chance(15))
+  if (r.chance(15) && !crowd)
     {
     size_t cnt = r.chance(50) ? 1 + r.below(4) : 6 + r.below(14);
     for (size_t k = 0; k < cnt; ++k) p.respawn.push_back({static_cast<uint32_t>(r.below(n)), static_cast<uint8_t>(r.below(p.clients))});
@@ -363,7 +384,8 @@ static void on_signal(int sig)
 
 enum { ST_OUT = 0, ST_PENDING = 1, ST_RUNNING = 2, ST_DONE = 3 };
 struct ClientSlot { sem_t go; const Item * item; Res res; bool quit; };
-static ClientSlot g_slots[8];
+static const int MAX_CLIENTS = 96;
+static ClientSlot g_slots[MAX_CLIENTS];
 static sem_t g_done;
 static uint64_t g_threads_started = 0;
 static struct
@@ -371,7 +393,7 @@ static struct
   bool active = false;          // a multi-call segment is in flight
   bool scripted = false;
   int nclients = 0;
-  int state[8] = {0};
+  int state[96] = {0};
   Rng rng;
   unsigned den = 0; int budget = 0;
   const std::vector<Switch> * script = nullptr;
@@ -384,7 +406,7 @@ static struct
 
 static int pick_runnable(int me, bool random_pick)
   {
-  int cand[8], n = 0;
+  int cand[96], n = 0;
   for (int c = 0; c < g_fine.nclients; ++c)
     if (c != me && (g_fine.state[c] == ST_PENDING || g_fine.state[c] == ST_RUNNING)) cand[n++] = c;
   if (!n) return -1;
@@ -519,7 +541,7 @@ static void write_all(int fd, const void * p, size_t n)
   sa.sa_handler = on_signal; sigemptyset(&sa.sa_mask); sa.sa_flags = SA_NODEFER;
   sigaction(SIGFPE, &sa, nullptr); sigaction(SIGSEGV, &sa, nullptr); sigaction(SIGBUS, &sa, nullptr); sigaction(SIGILL, &sa, nullptr);
   sem_init(&g_done, 0, 0);
-  pthread_t th[8];
+  pthread_t th[MAX_CLIENTS];
   for (int c = 0; c < sc.clients; ++c)
     {
     sem_init(&g_slots[c].go, 0, 0); g_slots[c].quit = false;
@@ -552,7 +574,7 @@ static void write_all(int fd, const void * p, size_t n)
       out[g.items[0]] = s.res;
       continue;
       }
-    for (int c = 0; c < 8; ++c) g_fine.state[c] = ST_OUT;
+    for (int c = 0; c < MAX_CLIENTS; ++c) g_fine.state[c] = ST_OUT;
     for (int k : g.items) { const Item & it = sc.items[k]; g_slots[it.client].item = &it; g_fine.state[it.client] = ST_PENDING; }
     g_fine.den = g.den; g_fine.budget = g.budget; g_fine.script = &g.script; g_fine.focus = g.focus.empty() ? nullptr : &g.focus; g_fine.used.assign(g.script.size(), 0);
     int first = -1;
@@ -746,17 +768,26 @@ static std::string schedule_json(const Schedule & sc, int victim)
     for (int k : g.items) { int c = sc.items[k].client; if (!ren.count(c)) { int id = static_cast<int>(ren.size()); ren[c] = id; } }
     }
   std::string s = "\"clients\":" + std::to_string(ren.size()) + ",\"segments\":[";
-  int vseg = -1, vpos = -1;
+  int vseg = -1, vpos = -1, out_segs = 0; uint64_t pending_repeat = 1;
+  bool first_seg = true;
   for (size_t si = 0; si < sc.segs.size(); ++si)
     {
     const Segment & g = sc.segs[si];
-    s += std::string(si ? "," : "") + "{\"respawn_before\":[";
+    // run-length encode: a single-call segment identical to the previous one only bumps its "repeat"
+    if (si > 0 && g.items.size() == 1 && g.respawn.empty() && sc.segs[si - 1].items.size() == 1 && g.items[0] != victim && sc.segs[si - 1].items[0] != victim)
+      {
+      const Item & x = sc.items[g.items[0]]; const Item & y = sc.items[sc.segs[si - 1].items[0]];
+      if (x.client == y.client && x.op == y.op && x.a == y.a && x.b == y.b) { ++pending_repeat; continue; }
+      }
+    if (!first_seg) { s += ",\"repeat\":" + std::to_string(pending_repeat) + "}"; ++out_segs; }
+    pending_repeat = 1; first_seg = false;
+    s += std::string(out_segs ? "," : "") + "{\"respawn_before\":[";
     for (size_t k = 0; k < g.respawn.size(); ++k) s += std::string(k ? "," : "") + std::to_string(ren[g.respawn[k]]);
     s += "],\"calls\":[";
     for (size_t k = 0; k < g.items.size(); ++k)
       {
       const Item & it = sc.items[g.items[k]];
-      if (g.items[k] == victim) { vseg = static_cast<int>(si); vpos = static_cast<int>(k); }
+      if (g.items[k] == victim) { vseg = out_segs; vpos = static_cast<int>(k); }
       s += std::string(k ? "," : "") + "{\"client\":" + std::to_string(ren[it.client]) + ",\"op\":\"" + g_ops[it.op].name + "\",\"a\":\"" + hex(it.a) + "\",\"b\":\"" + hex(it.b) + "\"}";
       }
     s += "],\"script\":[";
@@ -769,8 +800,9 @@ static std::string schedule_json(const Schedule & sc, int victim)
            (w.idx == SW_AT_END ? std::string("-1") : std::to_string(w.idx)) + ",\"to\":" + std::to_string(ren[w.to]) + "}";
       first = false;
       }
-    s += "]}";
+    s += "]";
     }
+  if (!first_seg) s += ",\"repeat\":" + std::to_string(pending_repeat) + "}";
   s += "],\"victim\":{\"segment\":" + std::to_string(vseg) + ",\"call\":" + std::to_string(vpos) + "}";
   return s;
   }
@@ -806,6 +838,7 @@ struct Stats
   {
   std::vector<uint64_t> per_op;
   uint64_t clients_hist[9] = {0, 0, 0, 0, 0, 0, 0, 0, 0};
+  uint64_t crowd_runs = 0, hot_loop_runs = 0;
   uint64_t long_runs = 0, very_long_runs = 0, churn_runs = 0, respawns = 0, max_plan_len = 0;
   uint64_t alias_same[AL_N] = {0}, alias_cross[AL_N] = {0};
   uint64_t calls = 0, runs = 0, nontrivial = 0, iso_checks = 0, disagreements = 0, signals_seen = 0, lost = 0, findings = 0, unstable = 0;
@@ -820,7 +853,9 @@ struct Stats
 static void account_plan(Stats & st, const Plan & p, const std::vector<Res> & ra, uint64_t seed, int execs)
   {
   size_t n = p.items.size();
-  ++st.runs; st.clients_hist[p.clients]++;
+  ++st.runs; st.clients_hist[p.clients <= 8 ? p.clients : 0]++;      // slot 0 = more than 8 callers (crowd runs)
+  if (p.clients > 8) ++st.crowd_runs;
+  if (n >= 50000) ++st.hot_loop_runs;
   if (n >= 150) ++st.long_runs;
   if (n >= 3000) ++st.very_long_runs;
   if (!p.respawn.empty()) { ++st.churn_runs; st.respawns += p.respawn.size(); }
@@ -874,7 +909,7 @@ static void print_stats(const Stats & st, const char * mode, uint64_t seed0)
                   ",\"conflicting_call_pairs\":" + std::to_string(st.conflict_pairs) + ",\"conflicting_call_pairs_plain_access\":" + std::to_string(st.plain_conflict_pairs) + ",\"plans_with_conflicts\":" + std::to_string(st.plans_with_conflicts) +
                   ",\"directed_executions\":" + std::to_string(st.directed_execs) +
                   ",\"long_runs\":" + std::to_string(st.long_runs) + ",\"very_long_runs\":" + std::to_string(st.very_long_runs) + ",\"max_plan_len\":" + std::to_string(st.max_plan_len) +
-                  ",\"churn_runs\":" + std::to_string(st.churn_runs) + ",\"planned_respawns\":" + std::to_string(st.respawns) +
+                  ",\"hot_loop_runs\":" + std::to_string(st.hot_loop_runs) + ",\"crowd_runs\":" + std::to_string(st.crowd_runs) + ",\"churn_runs\":" + std::to_string(st.churn_runs) + ",\"planned_respawns\":" + std::to_string(st.respawns) +
                   ",\"threads_started\":" + std::to_string(g_threads_total) + ",\"max_threads_in_one_execution\":" + std::to_string(g_threads_max) +
                   ",\"clients_hist\":[" + std::to_string(st.clients_hist[1]) + "," + std::to_string(st.clients_hist[2]) + "," + std::to_string(st.clients_hist[3]) + "," + std::to_string(st.clients_hist[4]) + "," +
                   std::to_string(st.clients_hist[5]) + "," + std::to_string(st.clients_hist[6]) + "," + std::to_string(st.clients_hist[7]) + "," + std::to_string(st.clients_hist[8]) + "]";
@@ -1143,12 +1178,12 @@ static int do_scan_fine(uint64_t seed0, uint64_t count, const char * hashfile, u
 // stdin:  clients N / seg / call <client> <op> <a hex> <b hex> / sw <from> <at_yield|-1> <to> / victim <seg> <call>
 static int do_exec()
   {
-  char line[512]; Schedule sc; sc.clients = 1; int vseg = -1, vcall = -1; std::vector<uint8_t> pending_respawn;
+  char line[512]; Schedule sc; sc.clients = 1; int vseg = -1, vcall = -1; std::vector<uint8_t> pending_respawn; std::vector<int> comp_to_exp;
   while (fgets(line, sizeof line, stdin))
     {
     char name[256]; unsigned c, f, t; long long idx; unsigned long long a, b; int x, y;
     if (sscanf(line, "clients %d", &sc.clients) == 1) continue;
-    if (strncmp(line, "seg", 3) == 0) { Segment g; g.den = 0; g.budget = 0; g.respawn = pending_respawn; pending_respawn.clear(); sc.segs.push_back(g); continue; }
+    if (strncmp(line, "seg", 3) == 0) { comp_to_exp.push_back(static_cast<int>(sc.segs.size())); Segment g; g.den = 0; g.budget = 0; g.respawn = pending_respawn; pending_respawn.clear(); sc.segs.push_back(g); continue; }
     if (sscanf(line, "respawn %u", &c) == 1) { pending_respawn.push_back(static_cast<uint8_t>(c)); continue; }
     if (sscanf(line, "call %u %255s %llx %llx", &c, name, &a, &b) == 4)
       {
@@ -1165,9 +1200,16 @@ static int do_exec()
       sc.segs.back().script.push_back(Switch{static_cast<uint8_t>(f), idx < 0 ? SW_AT_END : static_cast<uint32_t>(idx), static_cast<uint8_t>(t)});
       continue;
       }
-    if (sscanf(line, "victim %d %d", &x, &y) == 2) { vseg = x; vcall = y; }
+    if (sscanf(line, "rep %llu", &a) == 1)
+      {
+      if (sc.segs.empty() || sc.segs.back().items.size() != 1) continue;
+      for (unsigned long long q = 1; q < a; ++q)
+        { Item it = sc.items[sc.segs.back().items[0]]; sc.items.push_back(it); Segment g; g.den = 0; g.budget = 0; g.items = {static_cast<int>(sc.items.size() - 1)}; sc.segs.push_back(g); }
+      continue;
+      }
+    if (sscanf(line, "victim %d %d", &x, &y) == 2) { vseg = (x >= 0 && x < static_cast<int>(comp_to_exp.size())) ? comp_to_exp[x] : -1; vcall = y; }
     }
-  if (sc.items.empty() || sc.clients < 1 || sc.clients > 8) { fprintf(stderr, "hsim: empty or malformed schedule\n"); return 2; }
+  if (sc.items.empty() || sc.clients < 1 || sc.clients > MAX_CLIENTS) { fprintf(stderr, "hsim: empty or malformed schedule\n"); return 2; }
   for (auto & it : sc.items) if (it.client >= sc.clients) { fprintf(stderr, "hsim: client out of range\n"); return 2; }
   for (auto & g : sc.segs)
     for (size_t i = 0; i < g.items.size(); ++i) for (size_t j = i + 1; j < g.items.size(); ++j)
